@@ -418,7 +418,7 @@ def thread_build(seed, i, tier):
     fresh = Fresh()
     fam = G.pick(rs, ns.buffered_families)
     kind = G.pick(rs, ["dict", "list"])
-    cfg = {"prop": ID, "family": fam, "kind": kind, "wc": rs.random() < 0.5, "threading": True, "oracles": [], "uuid_seed": rs.getrandbits(32), "opcode": False}
+    cfg = {"prop": ID, "family": fam, "kind": kind, "wc": rs.random() < 0.5, "threading": True, "oracles": [], "uuid_seed": rs.getrandbits(32), "opcode": rs.random() < 0.06}
     init = _thr.init_content(kind, fresh)
     pre = [{"t": "new_res", "family": fam, "kind": kind, "init": init}, {"t": "new_obj", "rid": 0, "wc": cfg["wc"]}, {"t": "new_obj", "rid": 0, "wc": cfg["wc"]}]
     v0, v1 = fresh.int(), fresh.int()
